@@ -1,5 +1,6 @@
 """C10 — concurrent work on distinct regions is isolated: lock-discipline clauses (DESIGN §4 C10)."""
 from order import M, names
+from program import op_place
 from common import AnchorMissing
 
 EXPLANATION = (
@@ -142,7 +143,31 @@ def run(ctx, chk):
     # error exits that leave a reservation behind: only the listed internal-invariant errors
     allowed_origin = {"rawdb::Database::copy": "OverlappingCopyRanges: unreachable while extents are disjoint",
                       "rawdb::layout::Layout::move_region": "RegionIndexMismatch: internal invariant"}
-    ek = O.exit_kinds(ww)
+    ek = dict(O.exit_kinds(ww))
+    # `return helper(..)` with the helper inlined: the error exits are the places where the helper produced its
+    # error (one merged `_0 = move r` block would mix the origins of all helpers)
+    def err_sources(l, depth=0):
+        out = set()
+        for d in ww.defs().get(l, []):
+            if d[0] == "call":
+                if any("from_residual" in n for n in names(d[2])):
+                    out.add(d[1])
+            elif d[3]["k"] == "agg" and d[3].get("variant") == "Err":
+                out.add(d[1])
+            elif d[3]["k"] == "use" and d[3].get("ops") and depth < 6:
+                pl = op_place(d[3]["ops"][0])
+                if pl is not None and not pl["p"]:
+                    out |= err_sources(pl["l"], depth + 1)
+        return out
+    for e in [x for x, k_ in ek.items() if k_ == "err"]:
+        for st_ in ww.blocks[e]["stmts"]:
+            if st_[0] == "assign" and st_[1]["l"] == 0 and not st_[1]["p"] and st_[2]["k"] == "use" and st_[2].get("ops"):
+                pl = op_place(st_[2]["ops"][0])
+                srcs = err_sources(pl["l"]) if pl is not None and not pl["p"] else set()
+                if srcs:
+                    del ek[e]
+                    for x in srcs:
+                        ek[x] = "err"
     tset = set(O.sites(ww, TAKE))
     leaks = []
     for e, kind in ek.items():
@@ -166,10 +191,10 @@ def run(ctx, chk):
             continue
         t = ww.blocks[e]["term"]
         origin = set()
-        if t["k"] == "call" and t["args"] and t["dest"]["l"] == 0:
+        if t["k"] == "call" and t["args"] and (t["dest"]["l"] == 0 or any("from_residual" in n for n in names(t))):
             origin = O.result_origin(ww, t["args"][0])
         for st in ww.blocks[e]["stmts"]:
-            if st[0] == "assign" and st[1]["l"] == 0:
+            if st[0] == "assign" and (st[1]["l"] == 0 or (st[2]["k"] == "agg" and st[2].get("variant") == "Err")):
                 for o in st[2].get("ops", []):
                     origin |= O.result_origin(ww, o)
         leaks.append((ww.blocks[e]["term"].get("span") or "?", sorted(origin)))
